@@ -71,6 +71,17 @@ SUMMARY.update({
  "C17-b": ("C17", "mempool config.rs only: quorum = N - N/3", "total stake divisible by 3 (consensus and mempool disagree)"),
 })
 
+SUMMARY.update({
+ "C01-e": ("C01", "messages.rs: Timeout digest signs only the round (not the reported high-QC round) and TC::verify batch-verifies that digest: the high-QC rounds inside a TC are no longer authenticated", "a Byzantine leader right after a view change rewrites the reported rounds in a TC built from genuine timeouts and proposes below a committed block"),
+ "C02-e": ("C02", "core.rs commit: new helper increase_last_committed_round used as the guard at the top (watermark moved before the ancestor walk, which still reads it as the old value)", "a round gap on the committed chain: ancestors are skipped"),
+ "C05-e": ("C05", "messages.rs: QC::is_genesis() = (round == 0) used by Block/Timeout::verify, while the synchronizer still compares hash and round", "a proposal whose QC has round 0 but points at a stored uncertified block"),
+ "C07-e": ("C07", "", ""),
+ "C10-e": ("C10", "core.rs handle_timeout: timeout.verify skipped when timeout.author == self.name", "a timeout spoofed in the receiver's own name carrying a forged QC"),
+ "C13-e": ("C13", "core.rs handle_proposal: payload check only for block.round >= self.round (same idea as C08-a, found independently)", "a missed batch plus B_r arriving after B_r+1"),
+ "C14-e": ("C14", "reliable_sender.rs keep_alive: early `return` on a failed write skips the re-buffering of pending replies (in-flight messages are dropped)", "a connection failure detected by a write while earlier messages are unacknowledged"),
+ "C19-e": ("C19", "core.rs handle_vote: vote.verify skipped for votes naming the node itself (same edit as C04-a, found independently)", "a forged vote in the collector's own name"),
+})
+
 def confirmed(d):
     out = {}
     for tag in ("with", "without"):
